@@ -438,5 +438,29 @@ theorem C05_giveup_false :
     s.out.map (·.num) = [11, 15, 20] ∧ s.from_ = 21 ∧ env.chain 3 ≠ [] := by
   decide
 
+/-! ### a failed read of the finalized pointer does not make the loop wait -/
+
+/-- **no stall after a failed read of the finalized pointer**: the iteration in which `GetLastFinalizedBlock` fails is
+    abandoned with `reachTop` cleared, so the next iteration waits for a new block only if there is really nothing left below
+    the tip it knows: when `from ≤ last` it does not consult the tip at all — it fetches the pending range even on a chain that
+    stays quiet from then on (whatever `WaitForNewBlocks` would have answered). -/
+theorem C05_no_stall_after_failed_read (env : Env) (s : DState) (inp inp' : Input) (hf : inp.finOk = false)
+    (hleft : (stepD env s inp).from_ ≤ (stepD env s inp).last) (t : Nat) :
+    (stepD env s inp).reachTop = false ∧
+    stepD env (stepD env s inp) inp' = stepD env (stepD env s inp) { inp' with tip := t } := by
+  have hr : (stepD env s inp).reachTop = false := by
+    unfold stepD; simp [hf]
+  refine ⟨hr, ?_⟩
+  generalize stepD env s inp = s1 at hr hleft
+  have hw : (decide (s1.from_ > s1.last) || (s1.reachTop && decide (s1.to_ ≥ s1.last))) = false := by
+    rw [hr]; simp; omega
+  unfold stepD
+  simp only [hw, Bool.false_eq_true, if_false]
+
+/-- the directed schedule of the correspondence check: idle at the top (tip = finalized = 5), the tip moves to 7 with a
+    watched log, the read of the finalized pointer fails once, the chain stays quiet — block 7 is handed over -/
+example :
+    let env : Env := { chain := fun b => if b = 3 then [31] else if b = 7 then [71] else [], chunk := 10, finalizedTag := true }
+    (run env (init env 1 5) [⟨5, 5, true⟩, ⟨7, 7, false⟩, ⟨7, 7, true⟩]).out.map (·.num) = [3, 5, 7] := by decide
 
 end Aggkit.Downloader
